@@ -73,6 +73,12 @@ def check_schedule(spec, res):
             res.count("progress_walk_oracle_skipped")
         elif w:
             v = w
+    if v is None and schedule:
+        w = sc.check_start_benchmark(schedule)
+        if w == "skipped":
+            res.count("start_benchmark_oracle_skipped")
+        elif w:
+            v = w
     res.case(
         case_repr={"schedule": spec} if res.sample_now(3001) else None,
         nontrivial_key=("s", repr(spec)) if any(el[0] == "P" for el in spec) else None,
